@@ -19,6 +19,9 @@ def replay_premise(case, go, m, s):
 
 def mk_compare(pid):
     def compare(case, go, m, s):
+        if case.startswith("SPUB "):
+            # publishing through the Server's own entry point: who is sent what is a plain list computation
+            return go == m, go == s
         if pid == "C04" and (case.startswith("VALID ") or case.startswith("FINITE ")):
             return replay_premise(case, go, m, s)
         corr = m == "accept"
@@ -33,7 +36,7 @@ def mk_compare(pid):
 
 
 def hist(case, go):
-    if case[0] in "VF":
+    if case[0] in "VF" or case.startswith("SPUB "):
         return ["op:" + case.split(" ")[0]]
     parts = go.split(" ## ")
     if len(parts) != 3:
@@ -80,10 +83,13 @@ RULE = ("random scenarios (1-9 subscribers with overlapping topic sets, 0-14 pub
         "concurrent or with a cancelled context, k-th Send/Flush failures, replayer none / recording / real FiniteReplayer "
         "(manual and automatic IDs, resuming subscribers) / faulty (error or panic at call k)), run against the real Joe with "
         "random Gosched/sleep perturbation at every hook; non-trivial = at least one publish accepted and one subscriber "
-        "registered; distinct by scenario seed")
+        "registered; distinct by scenario seed; C03 also: publications through Server.Publish (SPUB: 1-4 subscribers, 1-5 "
+        "publications, topic lists that mix names, the default topic \"\", a name with a comma, a blank, and no topics at all)")
 
 
 def nontrivial(case, go):
+    if case.startswith("SPUB "):
+        return any(c.isdigit() for c in go)
     if case[0] in "VF":
         return "R=S" in go
     return ",pa" in go and ",sa" in go or go.startswith("sa")
@@ -95,9 +101,10 @@ def register(PROPS):
             "gens": [{"id": pid, "quick": 2500, "thorough": 60000, "thorough_seeds": 12, "race": True, "gomaxprocs": [1, 2, 16]}],
             "compare": mk_compare(pid),
             "generated_layer": pid in ("C03", "C04"),   # topicsIntersect; the ring buffer behind the replayers
-            # C06 forbids every panic; C07 forbids a panic of a repeated or concurrent Shutdown call
+            # C06 forbids every panic; C07 forbids a panic of a repeated or concurrent Shutdown call, and one that kills Joe's own
+            # goroutine (no pending call returns any more)
             "on_crash": ("property" if pid == "C06" else
-                         (lambda text: "property" if "(*Joe).Shutdown" in text else "correspondence") if pid == "C07" else
+                         (lambda text: "property" if "(*Joe).Shutdown" in text or "(*Joe).start" in text else "correspondence") if pid == "C07" else
                          "correspondence"),
             "nontrivial": nontrivial,
             "rule": RULE,
@@ -108,6 +115,8 @@ def register(PROPS):
             "corpus_also": ["JOE"],
             "replay_repeats": 300,
             # the trace recorder relies on these hook call sites (tag verif) being where the model expects them
+            **({"gens": [{"id": "C03", "quick": 2500, "thorough": 60000, "thorough_seeds": 12, "race": True, "gomaxprocs": [1, 2, 16]},
+                         {"id": "SPUB", "quick": 2000, "thorough": 60000, "thorough_seeds": 6}]} if pid == "C03" else {}),
             **({"gens": [{"id": "C04", "quick": 2500, "thorough": 60000, "thorough_seeds": 12, "race": True, "gomaxprocs": [1, 2, 16]},
                          {"id": "C09", "quick": 12000, "thorough": 300000, "thorough_seeds": 8},
                          {"id": "C08", "quick": 8000, "thorough": 200000, "thorough_seeds": 8}]} if pid == "C04" else {}),
